@@ -3,7 +3,7 @@
    records until it has seen the replies it waits for; PBlock = Pending without a wake-up).  Proofs: Async/ConnTotal.v
    (totality), Async/ConnReads.v (accounting at every suspension point).  R is the reply specification of
    Parser/StreamSpec.v: the replies owed for a byte string by a parser in a given state. *)
-From FV Require Import Base.Bytes Gen.Generated Parser.ReqModel Parser.ReqTargets Parser.StreamModel Parser.AbsStream Parser.StreamSpec Parser.StreamRefine Parser.StreamInv Async.Conn Async.ConnWrites Async.ConnTotal Async.ConnReads Async.PeerTargets Async.PeerProofs.
+From FV Require Import Base.Bytes Gen.Generated Parser.ReqModel Parser.ReqTargets Parser.StreamModel Parser.AbsStream Parser.StreamSpec Parser.StreamRefine Parser.StreamInv Async.Conn Async.ConnWrites Async.ConnTotal Async.ConnReads Async.PeerTargets Async.PeerProofs Async.PeerTargets2 Async.PeerProofs2.
 
 (* ==== pinned from the proof files (tools/write_props.py) ==== *)
 
@@ -198,7 +198,35 @@ Theorem C08_parse_request_block_counts :
        next_gate w' = Some (ge, gm) /\ (fst (counts (wlog w')) < ge \/ snd (counts (wlog w')) < gm)).
 Proof. exact parse_request_block_counts. Qed.
 
+(* MAIN, whole connection: on a fault-free transport, for EVERY buffer size, every list of well-formed handler
+   scripts (reading, buffered reading, stream switching, writing, early return, own status, failing), every
+   read/write readiness pattern and every client whose segments are whole records and whose gates ask only for
+   management replies owed for records of EARLIER segments (pipelining allowed), the connection task RETURNS:
+   server and peer never wait for each other *)
+Theorem C08_peer_never_deadlocks :
+  forall (norm : bytes -> bytes) (maxc : N) (scripts : list (list N)) (B : N)
+    (sg : list (N * N * list ReqWire.rcd)) (w0 : world),
+  B < SIZE_LIMIT - 8 ->
+  scripts_ok true scripts ->
+  segs w0 = enc_segs sg ->
+  peer_segs 0 sg ->
+  wlog w0 = [] ->
+  no_fault (wscript w0) ->
+  no_read_fault (rscript w0) ->
+  stop_at w0 = 0 ->
+  stopped w0 = false ->
+  len (flat (segs w0)) < SIZE_LIMIT ->
+  fst (run_loop norm maxc (nb w0 + 4) (new_parser B) scripts 0 w0) = ORet.
+Proof. exact peer_never_deadlocks. Qed.
+
 (* non-vacuity of C08_peer_read_never_deadlocks: a GetValues query in the first segment, the second segment gated on its
    reply (gm = 1): all hypotheses hold, the read returns the Stdin bytes; with the gate at 2 replies the read does deadlock *)
 Example C08_peer_example : forall fuel dest w', await_input 10 fuel dest ex_peer_r ex_peer_w <> Halt ODeadlock w'.
 Proof. exact ex_peer_no_deadlock. Qed.
+
+(* non-vacuity of C08_peer_never_deadlocks: a request whose Stdin carries a GetValues query in segment 1 and whose second segment is
+   gated on that reply: the hypotheses hold and the run returns; with the gate asking for 2 replies the peer condition fails and
+   the run does end in the wait-for cycle *)
+Example C08_connection_example : forall norm maxc,
+  fst (run_loop norm maxc (nb (ex2_w 1) + 4) (new_parser 64) ex2_scripts 0 (ex2_w 1)) = ORet.
+Proof. exact ex2_never_deadlocks. Qed.
